@@ -71,7 +71,7 @@ def _case(draw):
 
 def drivers(tier):
     th = tier == 'thorough'
-    return [dict(kind='hyp', name='selector', strategy=_case(), examples=120000 if th else 8000)]
+    return [dict(kind='hyp', name='selector', strategy=_case(), examples=300000 if th else 25000)]
 
 
 def check(case):
